@@ -273,7 +273,8 @@ Module LIM.
   Definition init : st := mk 0 0 0.
 End LIM.
 
-(* ---- refresource.go: both methods run entirely under r.lock ---- *)
+(* ---- refresource.go as a sequential object (the specification used for linearizability; the
+   interleaving model at the granularity of the code is REFL below) ---- *)
 Module REF.
   Record st := mk { ref : Z; cleaned : bool; ncb : nat (* ghost: runs of the clean callback *);
                     nuse : nat (* ghost: successful Use *); ncl : nat (* ghost: Clean calls that decremented *) }.
@@ -281,9 +282,10 @@ Module REF.
     match o_code o with
     | 0 => (* Use l.27-38: result 0 = nil, 1 = ErrUseOfCleaned *)
         if cleaned s then Some (s, 1) else Some (mk (ref s + 1) false (ncb s) (S (nuse s)) (ncl s), 0)
-    | _ => (* Clean l.41-54: result 1 = the clean callback ran in this call *)
+    | _ => (* Clean l.41-54: result 1 = the clean callback ran in this call, 2 = it ran and panicked
+              (o_a <> 0 scripts a panicking callback; cleaned is set before the callback is called) *)
         if cleaned s then Some (s, 0)
-        else if Z.eqb (ref s - 1) 0 then Some (mk 0 true (S (ncb s)) (nuse s) (S (ncl s)), 1)
+        else if Z.eqb (ref s - 1) 0 then Some (mk 0 true (S (ncb s)) (nuse s) (S (ncl s)), if Nat.eqb (o_a o) 0 then 1 else 2)
         else Some (mk (ref s - 1) false (ncb s) (nuse s) (S (ncl s)), 0)
     end.
   Definition init : st := mk 0 false 0 0 0.
@@ -329,20 +331,26 @@ End DONE.
 
 (* ============================================================== pool.go *)
 Module POOL.
-  (* script op: o_code 0 = Get, 1 = Put of the most recently obtained resource still held *)
+  (* script op: o_code 0 = Get (o_a <> 0: the create callback panics if this Get calls it, o_b = gate
+     inside the create callback, o_c <> 0: the destroy callback panics if this Get calls it);
+     1 = Put of the most recently obtained resource still held.
+     Both callbacks run under p.lock; `defer p.lock.Unlock()` releases it when they panic. *)
   Inductive pc :=
   | Idle
   | GLock            (* Get: p.lock.Lock()                                  l.62 *)
   | GLoop            (* holding the lock: one iteration of the for loop     l.65-83 *)
+  | GCb              (* p.created++ done; p.create() running (lock held)    l.79-80 *)
   | GWait            (* inside p.cond.Wait(): lock released, queued          l.83 *)
   | GRelock          (* notified: re-acquire the lock inside cond.Wait       l.83 *)
   | GRet (r : nat)   (* deferred p.lock.Unlock(); return r                   l.63,74,80 *)
+  | GPanic           (* deferred p.lock.Unlock(); the callback's panic reaches the caller  l.63 *)
   | PLock (x : nat)  (* Put: p.lock.Lock()                                   l.93 *)
   | PPush (x : nat)  (* p.head = &node{x, p.head, timex.Now()}               l.96-100 *)
   | PSignal          (* p.cond.Signal()                                      l.101 *)
   | PUnlock.         (* deferred p.lock.Unlock()                             l.94 *)
 
-  Record tstate := mkt { t_pc : pc; t_todo : list op; t_res : list (nat * nat); t_held : list nat }.
+  Record tstate := mkt { t_pc : pc; t_cpan : nat; t_gate : nat; t_dpan : nat;
+                         t_todo : list op; t_res : list (nat * nat); t_held : list nat }.
 
   Record state := mk {
     lock : option nat;
@@ -351,42 +359,47 @@ Module POOL.
     waiters : list nat;             (* cond's notify list, FIFO *)
     nextres : nat;                  (* ids handed out by the create callback *)
     now : nat;                      (* timex.Now() *)
+    open : list nat;
     ts : nat -> tstate;
     trace : list ev;
     loc : nat -> nat;               (* ghost: 0 unborn, 1 idle in pool, 2 destroyed, 3+t held by t *)
-    ncreate : Z; ndestroy : Z       (* ghost: calls of create / destroy *)
+    ncreate : Z; ndestroy : Z;      (* ghost: resources returned by create / passed to destroy *)
+    nleak : Z                       (* ghost: p.created++ whose create() is running or panicked *)
   }.
 
   Definition init (scripts : nat -> list op) : state :=
-    mk None 0 [] [] 1 0 (fun t => mkt Idle (scripts t) [] []) [] (fun _ => 0) 0 0.
+    mk None 0 [] [] 1 0 [] (fun t => mkt Idle 0 0 0 (scripts t) [] []) [] (fun _ => 0) 0 0 0.
 
   Definition expired (maxage lu now : nat) : bool := Nat.ltb 0 maxage && Nat.ltb (lu + maxage) now.
 
+  Definition setpc (x : tstate) (p : pc) : tstate :=
+    mkt p (t_cpan x) (t_gate x) (t_dpan x) (t_todo x) (t_res x) (t_held x).
+
   Definition step (limit : Z) (maxage : nat) (l : lbl) (s : state) : option state :=
     match l with
-    | Adv d => Some (mk (lock s) (created s) (head s) (waiters s) (nextres s) (now s + d) (ts s) (trace s) (loc s) (ncreate s) (ndestroy s))
-    | Open _ => None
+    | Adv d => Some (mk (lock s) (created s) (head s) (waiters s) (nextres s) (now s + d) (open s) (ts s) (trace s) (loc s) (ncreate s) (ndestroy s) (nleak s))
+    | Open g => Some (mk (lock s) (created s) (head s) (waiters s) (nextres s) (now s) (g :: open s) (ts s) (trace s) (loc s) (ncreate s) (ndestroy s) (nleak s))
     | Thr t =>
         let x := ts s t in
         let setp (lk : option nat) (p : pc) :=
-          Some (mk lk (created s) (head s) (waiters s) (nextres s) (now s)
-                   (upd (ts s) t (mkt p (t_todo x) (t_res x) (t_held x))) (trace s) (loc s) (ncreate s) (ndestroy s)) in
+          Some (mk lk (created s) (head s) (waiters s) (nextres s) (now s) (open s)
+                   (upd (ts s) t (setpc x p)) (trace s) (loc s) (ncreate s) (ndestroy s) (nleak s)) in
         match t_pc x with
         | Idle =>
             match t_todo x with
             | [] => None
             | o :: rest =>
                 match o_code o with
-                | 0 => Some (mk (lock s) (created s) (head s) (waiters s) (nextres s) (now s)
-                                (upd (ts s) t (mkt GLock rest (t_res x) (t_held x)))
-                                (mkev t KInv 0 0 (now s) 0 :: trace s) (loc s) (ncreate s) (ndestroy s))
+                | 0 => Some (mk (lock s) (created s) (head s) (waiters s) (nextres s) (now s) (open s)
+                                (upd (ts s) t (mkt GLock (o_a o) (o_b o) (o_c o) rest (t_res x) (t_held x)))
+                                (mkev t KInv 0 0 (now s) 0 :: trace s) (loc s) (ncreate s) (ndestroy s) (nleak s))
                 | _ =>
                     match t_held x with
-                    | [] => Some (mk (lock s) (created s) (head s) (waiters s) (nextres s) (now s)
-                                     (upd (ts s) t (mkt Idle rest ((0, 1) :: t_res x) [])) (trace s) (loc s) (ncreate s) (ndestroy s))
-                    | r :: h' => Some (mk (lock s) (created s) (head s) (waiters s) (nextres s) (now s)
-                                          (upd (ts s) t (mkt (PLock r) rest (t_res x) h'))
-                                          (mkev t KInv 1 r (now s) 0 :: trace s) (loc s) (ncreate s) (ndestroy s))
+                    | [] => Some (mk (lock s) (created s) (head s) (waiters s) (nextres s) (now s) (open s)
+                                     (upd (ts s) t (mkt Idle 0 0 0 rest ((0, 1) :: t_res x) [])) (trace s) (loc s) (ncreate s) (ndestroy s) (nleak s))
+                    | r :: h' => Some (mk (lock s) (created s) (head s) (waiters s) (nextres s) (now s) (open s)
+                                          (upd (ts s) t (mkt (PLock r) 0 0 0 rest (t_res x) h'))
+                                          (mkev t KInv 1 r (now s) 0 :: trace s) (loc s) (ncreate s) (ndestroy s) (nleak s))
                     end
                 end
             end
@@ -395,41 +408,57 @@ Module POOL.
             match head s with
             | (r, lu) :: rest =>
                 if expired maxage lu (now s) then
-                  (* p.created--; p.destroy(head.item); continue *)
-                  Some (mk (lock s) (created s - 1) rest (waiters s) (nextres s) (now s) (ts s)
-                           (mkev t KEnd 3 r (now s) 0 :: trace s) (upd (loc s) r 2) (ncreate s) (ndestroy s + 1))
+                  (* p.created--; p.destroy(head.item); continue -- or the callback's panic unwinds Get *)
+                  Some (mk (lock s) (created s - 1) rest (waiters s) (nextres s) (now s) (open s)
+                           (upd (ts s) t (setpc x (if Nat.eqb (t_dpan x) 0 then GLoop else GPanic)))
+                           (mkev t KEnd 3 r (now s) (if Nat.eqb (t_dpan x) 0 then 0 else 1) :: trace s)
+                           (upd (loc s) r 2) (ncreate s) (ndestroy s + 1) (nleak s))
                 else
-                  Some (mk (lock s) (created s) rest (waiters s) (nextres s) (now s)
-                           (upd (ts s) t (mkt (GRet r) (t_todo x) (t_res x) (t_held x))) (trace s)
-                           (upd (loc s) r (3 + t)) (ncreate s) (ndestroy s))
+                  Some (mk (lock s) (created s) rest (waiters s) (nextres s) (now s) (open s)
+                           (upd (ts s) t (setpc x (GRet r))) (trace s)
+                           (upd (loc s) r (3 + t)) (ncreate s) (ndestroy s) (nleak s))
             | [] =>
                 if Z.ltb (created s) limit then
-                  let r := nextres s in
-                  Some (mk (lock s) (created s + 1) [] (waiters s) (S r) (now s)
-                           (upd (ts s) t (mkt (GRet r) (t_todo x) (t_res x) (t_held x)))
-                           (mkev t KBegin 3 r (now s) 0 :: trace s) (upd (loc s) r (3 + t)) (ncreate s + 1) (ndestroy s))
+                  Some (mk (lock s) (created s + 1) [] (waiters s) (nextres s) (now s) (open s)
+                           (upd (ts s) t (setpc x GCb)) (trace s) (loc s) (ncreate s) (ndestroy s) (nleak s + 1))
                 else
-                  Some (mk None (created s) [] (waiters s ++ [t]) (nextres s) (now s)
-                           (upd (ts s) t (mkt GWait (t_todo x) (t_res x) (t_held x))) (trace s) (loc s) (ncreate s) (ndestroy s))
+                  Some (mk None (created s) [] (waiters s ++ [t]) (nextres s) (now s) (open s)
+                           (upd (ts s) t (setpc x GWait)) (trace s) (loc s) (ncreate s) (ndestroy s) (nleak s))
             end
+        | GCb =>
+            if gate_open (open s) (t_gate x) then
+              if Nat.eqb (t_cpan x) 0 then
+                let r := nextres s in
+                Some (mk (lock s) (created s) (head s) (waiters s) (S r) (now s) (open s)
+                         (upd (ts s) t (setpc x (GRet r)))
+                         (mkev t KBegin 3 r (now s) 0 :: trace s) (upd (loc s) r (3 + t)) (ncreate s + 1) (ndestroy s) (nleak s - 1))
+              else
+                Some (mk (lock s) (created s) (head s) (waiters s) (nextres s) (now s) (open s)
+                         (upd (ts s) t (setpc x GPanic))
+                         (mkev t KBegin 3 0 (now s) 1 :: trace s) (loc s) (ncreate s) (ndestroy s) (nleak s))
+            else None
         | GWait => if existsb (Nat.eqb t) (waiters s) then None else setp (lock s) GRelock
         | GRelock => match lock s with None => setp (Some t) GLoop | Some _ => None end
         | GRet r =>
-            Some (mk None (created s) (head s) (waiters s) (nextres s) (now s)
-                     (upd (ts s) t (mkt Idle (t_todo x) ((r, 0) :: t_res x) (r :: t_held x)))
-                     (mkev t KRet 0 r (now s) 0 :: trace s) (loc s) (ncreate s) (ndestroy s))
+            Some (mk None (created s) (head s) (waiters s) (nextres s) (now s) (open s)
+                     (upd (ts s) t (mkt Idle (t_cpan x) (t_gate x) (t_dpan x) (t_todo x) ((r, 0) :: t_res x) (r :: t_held x)))
+                     (mkev t KRet 0 r (now s) 0 :: trace s) (loc s) (ncreate s) (ndestroy s) (nleak s))
+        | GPanic =>
+            Some (mk None (created s) (head s) (waiters s) (nextres s) (now s) (open s)
+                     (upd (ts s) t (mkt Idle (t_cpan x) (t_gate x) (t_dpan x) (t_todo x) ((0, 2) :: t_res x) (t_held x)))
+                     (mkev t KRet 0 0 (now s) 2 :: trace s) (loc s) (ncreate s) (ndestroy s) (nleak s))
         | PLock r => match lock s with None => setp (Some t) (PPush r) | Some _ => None end
         | PPush r =>
-            Some (mk (lock s) (created s) ((r, now s) :: head s) (waiters s) (nextres s) (now s)
-                     (upd (ts s) t (mkt PSignal (t_todo x) ((r, 0) :: t_res x) (t_held x))) (trace s)
-                     (upd (loc s) r 1) (ncreate s) (ndestroy s))
+            Some (mk (lock s) (created s) ((r, now s) :: head s) (waiters s) (nextres s) (now s) (open s)
+                     (upd (ts s) t (mkt PSignal (t_cpan x) (t_gate x) (t_dpan x) (t_todo x) ((r, 0) :: t_res x) (t_held x))) (trace s)
+                     (upd (loc s) r 1) (ncreate s) (ndestroy s) (nleak s))
         | PSignal =>
-            Some (mk (lock s) (created s) (head s) (tl (waiters s)) (nextres s) (now s)
-                     (upd (ts s) t (mkt PUnlock (t_todo x) (t_res x) (t_held x))) (trace s) (loc s) (ncreate s) (ndestroy s))
+            Some (mk (lock s) (created s) (head s) (tl (waiters s)) (nextres s) (now s) (open s)
+                     (upd (ts s) t (setpc x PUnlock)) (trace s) (loc s) (ncreate s) (ndestroy s) (nleak s))
         | PUnlock =>
-            Some (mk None (created s) (head s) (waiters s) (nextres s) (now s)
-                     (upd (ts s) t (mkt Idle (t_todo x) (t_res x) (t_held x)))
-                     (mkev t KRet 1 0 (now s) 0 :: trace s) (loc s) (ncreate s) (ndestroy s))
+            Some (mk None (created s) (head s) (waiters s) (nextres s) (now s) (open s)
+                     (upd (ts s) t (setpc x Idle))
+                     (mkev t KRet 1 0 (now s) 0 :: trace s) (loc s) (ncreate s) (ndestroy s) (nleak s))
         end
     end.
 
@@ -439,6 +468,9 @@ Module POOL.
   (* what thread t currently possesses *)
   Definition holding (x : tstate) : list nat :=
     match t_pc x with GRet r | PLock r | PPush r => r :: t_held x | _ => t_held x end.
+
+  Definition holds (p : pc) : bool :=
+    match p with GLoop | GCb | GRet _ | GPanic | PPush _ | PSignal | PUnlock => true | _ => false end.
 End POOL.
 
 (* ============================================================== resourcemanager.go
@@ -447,7 +479,9 @@ End POOL.
    the body of the fn passed to it is transcribed action by action, with m.lock as a
    readers/writer lock. *)
 Module RM.
-  (* script op: o_code 0 = Get (o_a key, o_b gate inside create, o_c <> 0: create fails); 1 = Close *)
+  (* script op: o_code 0 = Get (o_a key, o_b gate inside create, o_c = 1: create returns an error,
+     o_c >= 2: create panics -- no defer of fn is active then, the flight's cleanup runs and the panic
+     reaches the caller of Get); 1 = Close *)
   Inductive pc :=
   | Idle
   | SReg               (* singleFlight.Do: join the key's flight or register a new one      l.44 *)
@@ -546,7 +580,8 @@ Module RM.
                          (S id) (open s) (upd (ts s) t (setpcr x (FWLock c) id 0))
                          (mkev t KEnd 0 (t_key x) id 0 :: trace s) (cre s)
                          (upd (ncre s) (t_key x) (S (ncre s (t_key x)))) (closedids s))
-              else ret (setpcr x (SDel c) 0 1) (mkev t KEnd 0 (t_key x) 0 1)
+              else let code := if Nat.eqb (t_fail x) 1 then 1 else 2 in   (* create returned an error / panicked *)
+                   ret (setpcr x (SDel c) 0 code) (mkev t KEnd 0 (t_key x) 0 code)
             else None
         | FWLock c =>
             match writer s, readers s with
@@ -658,3 +693,81 @@ Module BAR.
   Definition busy (s : state) (t : nat) : bool := match t_pc (ts s t) with Idle => false | _ => true end.
   Definition inside (p : pc) : bool := match p with FnB | FnE | BUnlock => true | _ => false end.
 End BAR.
+
+(* ============================================================== refresource.go, action by action:
+   r.lock.Lock(); deferred r.lock.Unlock(); test of r.cleaned; the counter update together with
+   r.cleaned = true; then -- still holding the lock -- the clean callback, which may block (gate)
+   or panic; the deferred Unlock runs in either case. *)
+Module REFL.
+  (* script op: o_code 0 = Use; otherwise Clean with o_a <> 0: the callback panics if it runs in this
+     call, o_b = gate inside the callback *)
+  Inductive pc :=
+  | Idle
+  | ULock              (* Use: r.lock.Lock()                                  l.28 *)
+  | UBody              (* if r.cleaned { return ErrUseOfCleaned }; r.ref++    l.31-37 *)
+  | UUnlock (r : nat)  (* deferred r.lock.Unlock(); return                    l.29 *)
+  | CLock              (* Clean: r.lock.Lock()                                l.42 *)
+  | CBody              (* if r.cleaned {return}; r.ref--; if r.ref == 0 { r.cleaned = true   l.45-51 *)
+  | CCb                (* r.clean() running (lock held)                       l.52 *)
+  | CUnlock (r : nat). (* deferred r.lock.Unlock(); return / panic propagates l.43 *)
+
+  Record tstate := mkt { t_pc : pc; t_pan : nat; t_gate : nat; t_todo : list op; t_res : list (nat * nat) }.
+  Record state := mk { lock : option nat; ref : Z; cleaned : bool;
+                       ncb : nat (* ghost: starts of the callback *); nuse : nat; ncl : nat;
+                       open : list nat; ts : nat -> tstate; trace : list ev }.
+  Definition init (scripts : nat -> list op) : state :=
+    mk None 0 false 0 0 0 [] (fun t => mkt Idle 0 0 (scripts t) []) [].
+
+  Definition step (l : lbl) (s : state) : option state :=
+    match l with
+    | Open g => Some (mk (lock s) (ref s) (cleaned s) (ncb s) (nuse s) (ncl s) (g :: open s) (ts s) (trace s))
+    | Adv _ => None
+    | Thr t =>
+        let x := ts s t in
+        let setp (lk : option nat) (p : pc) :=
+          Some (mk lk (ref s) (cleaned s) (ncb s) (nuse s) (ncl s) (open s)
+                   (upd (ts s) t (mkt p (t_pan x) (t_gate x) (t_todo x) (t_res x))) (trace s)) in
+        match t_pc x with
+        | Idle =>
+            match t_todo x with
+            | [] => None
+            | o :: rest =>
+                Some (mk (lock s) (ref s) (cleaned s) (ncb s) (nuse s) (ncl s) (open s)
+                         (upd (ts s) t (mkt (match o_code o with 0 => ULock | _ => CLock end) (o_a o) (o_b o) rest (t_res x)))
+                         (mkev t KInv (o_code o) (o_a o) (o_b o) 0 :: trace s))
+            end
+        | ULock => match lock s with None => setp (Some t) UBody | Some _ => None end
+        | UBody =>
+            if cleaned s then setp (lock s) (UUnlock 1)
+            else Some (mk (lock s) (ref s + 1) false (ncb s) (S (nuse s)) (ncl s) (open s)
+                          (upd (ts s) t (mkt (UUnlock 0) (t_pan x) (t_gate x) (t_todo x) (t_res x))) (trace s))
+        | UUnlock r =>
+            Some (mk None (ref s) (cleaned s) (ncb s) (nuse s) (ncl s) (open s)
+                     (upd (ts s) t (mkt Idle (t_pan x) (t_gate x) (t_todo x) ((r, 0) :: t_res x)))
+                     (mkev t KRet 0 r 0 0 :: trace s))
+        | CLock => match lock s with None => setp (Some t) CBody | Some _ => None end
+        | CBody =>
+            if cleaned s then setp (lock s) (CUnlock 0)
+            else if Z.eqb (ref s - 1) 0 then
+              Some (mk (lock s) 0 true (S (ncb s)) (nuse s) (S (ncl s)) (open s)
+                       (upd (ts s) t (mkt CCb (t_pan x) (t_gate x) (t_todo x) (t_res x)))
+                       (mkev t KBegin 1 0 0 0 :: trace s))
+            else Some (mk (lock s) (ref s - 1) false (ncb s) (nuse s) (S (ncl s)) (open s)
+                          (upd (ts s) t (mkt (CUnlock 0) (t_pan x) (t_gate x) (t_todo x) (t_res x))) (trace s))
+        | CCb =>
+            if gate_open (open s) (t_gate x) then
+              Some (mk (lock s) (ref s) (cleaned s) (ncb s) (nuse s) (ncl s) (open s)
+                       (upd (ts s) t (mkt (CUnlock (if Nat.eqb (t_pan x) 0 then 1 else 2)) (t_pan x) (t_gate x) (t_todo x) (t_res x)))
+                       (mkev t KEnd 1 0 0 (if Nat.eqb (t_pan x) 0 then 0 else 1) :: trace s))
+            else None
+        | CUnlock r =>
+            Some (mk None (ref s) (cleaned s) (ncb s) (nuse s) (ncl s) (open s)
+                     (upd (ts s) t (mkt Idle (t_pan x) (t_gate x) (t_todo x) ((r, 0) :: t_res x)))
+                     (mkev t KRet 1 r 0 0 :: trace s))
+        end
+    end.
+
+  Definition busy (s : state) (t : nat) : bool := match t_pc (ts s t) with Idle => false | _ => true end.
+  Definition holds (p : pc) : bool :=
+    match p with UBody | UUnlock _ | CBody | CCb | CUnlock _ => true | _ => false end.
+End REFL.
